@@ -225,7 +225,12 @@ pub fn run_c01(ctx: &mut Ctx, from: u64, to: u64, tiny: bool) {
     for k in from..to {
         ctx.begin_case(k);
         let mut rng = Rng::new(case_seed(ctx.seed, "C01", k));
-        let case = gen_case(&mut rng, &opts_for(ctx, k, TagMode::Maybe, tiny));
+        let case = if k % 61 == 9 && !tiny {
+            ctx.count("cases_with_entry_cancelling_its_suffix_chain", 1);
+            vgen::gen::cancelling_case(&mut rng).0
+        } else {
+            gen_case(&mut rng, &opts_for(ctx, k, TagMode::Maybe, tiny))
+        };
         count_model_facts(ctx, &case.model);
         let Some(p_plain) = make_predictor(ctx, "C01", &case, false) else { continue };
         let p_tag = if case.model.tag_models.is_empty() { None } else { make_predictor(ctx, "C01", &case, true) };
@@ -429,7 +434,18 @@ pub fn run_c06(ctx: &mut Ctx, from: u64, to: u64, tiny: bool) {
             if forced {
                 let mut labels: Vec<u8> =
                     if rng.chance(1, 2) { s.boundaries().iter().map(|&b| label_of(b)).collect() } else { gen_labels(&mut rng, text.len() - 1, 0) };
+                // unannotated stretches (a caller or custom filter may leave boundaries unknown before fill_tags)
+                if rng.chance(1, 3) {
+                    for l in labels.iter_mut() {
+                        if rng.chance(1, 6) {
+                            *l = 2;
+                        }
+                    }
+                }
                 force_tokens(&mut rng, m, text, &mut labels);
+                if labels.contains(&2) {
+                    ctx.count("fill_tags_runs_with_unknown_boundaries_present", 1);
+                }
                 for (b, &l) in s.boundaries_mut().iter_mut().zip(&labels) {
                     *b = boundary_of(l);
                 }
@@ -472,10 +488,70 @@ pub fn ctx_counter(ctx: &Ctx, name: &str) -> u64 {
 }
 
 /// C14: serialise / deserialise a predictor and compare the behaviour of both.
+/// Set by the C14 workload itself (the composite C18u workload skips the large predictor).
+pub static ALLOW_BIG_PREDICTOR: std::sync::atomic::AtomicBool = std::sync::atomic::AtomicBool::new(false);
+
+/// A predictor whose serialised form is far larger than 16 MiB (the size of real distributed models).
+fn big_predictor_round_trip(ctx: &mut Ctx) {
+    use vgen::mirror::{NgramData, WordWeightRecord};
+    let mut big = ModelData { bias: 3, char_window_size: 2, type_window_size: 2, ..ModelData::default() };
+    let cjk = |i: usize| char::from_u32(0x4E00 + (i % 20000) as u32).unwrap();
+    for i in 0..270_000usize {
+        let w: String = [cjk(i / 700), cjk(7000 + i % 700), cjk(9000 + (i * 7) % 911)].iter().collect();
+        big.dict_model.push(WordWeightRecord { word: w, weights: vec![1, -2, 3, (i % 5) as i32], comment: String::new() });
+    }
+    for i in 0..380_000usize {
+        let g: String = [cjk(i / 650), cjk(12000 + i % 650)].iter().collect();
+        big.char_ngram_model.push(NgramData { ngram: g, weights: vec![(i % 7) as i32 - 3, 2, -1] });
+    }
+    big.type_ngram_model.push(NgramData { ngram: vec![5, 5], weights: vec![4, -6, 1] });
+    let text: Vec<char> = (0..400usize).map(|i| if i % 3 == 0 { cjk(i / 3) } else if i % 3 == 1 { cjk(7000 + i % 700) } else { cjk(12000 + (i * 5) % 650) }).collect();
+    let r = guard(|| -> Result<(usize, bool), String> {
+        let p = new_predictor(&big, false)?;
+        let mut bytes = p.serialize_to_vec().map_err(|e| format!("serialize_to_vec: {e}"))?;
+        let n = bytes.len();
+        bytes.extend_from_slice(b"tail");
+        // SAFETY: the bytes were produced by serialize_to_vec.
+        let (q, rest) = unsafe { Predictor::deserialize_from_slice_unchecked(&bytes) }.map_err(|e| format!("deserialize_from_slice_unchecked: {e}"))?;
+        if rest != b"tail" {
+            return Err(format!("remaining slice has {} bytes, 4 were appended", rest.len()));
+        }
+        let mut a = Sentence::from_raw(to_string(&text)).unwrap();
+        let mut b = Sentence::from_raw(to_string(&text)).unwrap();
+        p.predict(&mut a);
+        q.predict(&mut b);
+        let refs = ref_scores(&big, &text);
+        let same = a.boundary_scores() == b.boundary_scores() && a.boundaries() == b.boundaries();
+        let right = a.boundary_scores().iter().map(|&x| i64::from(x)).collect::<Vec<_>>() == refs;
+        if !same || !right {
+            return Err(format!("scores differ: original_equals_reference={right} deserialised_equals_original={same}"));
+        }
+        Ok((n, refs.iter().any(|&x| x != 3)))
+    });
+    ctx.eval(1);
+    match r {
+        Ok(Ok((n, nontrivial))) => {
+            if n > (1 << 24) {
+                ctx.count("predictors_serialised_larger_than_16MiB", 1);
+            }
+            ctx.count("large_predictor_serialised_bytes", n as u64);
+            if nontrivial {
+                ctx.nontrivial(n as u64);
+            }
+        }
+        Ok(Err(e)) => ctx.violation("C14:large_predictor_does_not_round_trip", J::obj(vec![("what", J::s(&e)), ("model", J::s(big.summary()))])),
+        Err(p) => ctx.violation(&format!("C14:large_predictor_round_trip_panicked:{}", panic_site(&p)), J::obj(vec![("panic", J::s(&p)), ("model", J::s(big.summary()))])),
+    }
+}
+
 pub fn run_c14(ctx: &mut Ctx, from: u64, to: u64, tiny: bool) {
     for k in from..to {
         ctx.begin_case(k);
         let mut rng = Rng::new(case_seed(ctx.seed, "C14", k));
+        if k == 3 && !tiny && ALLOW_BIG_PREDICTOR.load(std::sync::atomic::Ordering::Relaxed) {
+            big_predictor_round_trip(ctx);
+            continue;
+        }
         let mut o = opts_for(ctx, k, TagMode::Maybe, tiny);
         o.max_text_len = o.max_text_len.min(200);
         let case = gen_case(&mut rng, &o);
